@@ -96,7 +96,7 @@ def run(module, cfg, workers=None, timeout=600, simulate=None, depth=None, seed=
     if workers is None:
         workers = int(os.environ.get("VF_WORKERS", "16") or 16)
     timeout = timeout * int(os.environ.get("VF_TIMEOUT_SCALE", "1") or 1)
-    meta = tempfile.mkdtemp(prefix="vf-tlc-")
+    meta = tempfile.mkdtemp(prefix="vfmeta-%d-" % os.getpid())
     cmd = ["java", "-XX:+UseParallelGC", "-Xmx" + heap]
     if dfs_queue:
         cmd.append("-Dtlc2.tool.queue.IStateQueue=StateDeque")
